@@ -261,7 +261,9 @@ func (f *File) AddChild(child Box, boxStartPos uint64) {
 		if nrSttsEntries, ok := firstTrakSttsEntries(box); ok && nrSttsEntries == 0 {
 			f.isFragmented = true
 			f.Init = NewMP4Init()
-			f.Init.AddChild(f.Ftyp)
+			if f.Ftyp != nil { // moov may come without a preceding ftyp
+				f.Init.AddChild(f.Ftyp)
+			}
 			f.Init.AddChild(f.Moov)
 		}
 	case *SidxBox:
